@@ -105,7 +105,13 @@ func (s *session) loopWrite() {
 		case req = <-s.processingReqs:
 		}
 
-		req.Wait()
+		// the backend may never answer: do not keep the session (and with it
+		// Stop of the whole service) waiting once the connection is gone.
+		select {
+		case <-req.done:
+		case <-s.quit:
+			return
+		}
 		// TODO(kirk91): abstract response
 		resp := req.Response()
 		if err = s.enc.Encode(resp); err != nil {
